@@ -111,7 +111,9 @@ pub fn reference_walk(
         if m.kind == "js" && o.include_types() {
           if let Some((_, ResShape::Ok(t, _))) = &m.types_dep {
             push(t, &mut seen, &mut work);
-            if o.kind == 2 {
+            // replaced by its types dependency - unless that is the module
+            // itself
+            if o.kind == 2 && *t != s {
               continue;
             }
           } else if o.kind == 2 && !o.is_checkable(&s, m.mt) {
